@@ -70,9 +70,16 @@ Switch(c) ==
     [] c = LONG + DOUBLE -> T("float", 16, TRUE)
     [] OTHER -> ERR
 
+(* ---- <stddef.h>: the psABI types behind the standard typedef names *)
+StdTypes == << [name |-> "size_t", sz |-> 8, al |-> 8, sg |-> FALSE, arith |-> TRUE],
+               [name |-> "ptrdiff_t", sz |-> 8, al |-> 8, sg |-> TRUE, arith |-> TRUE],
+               [name |-> "wchar_t", sz |-> 4, al |-> 4, sg |-> TRUE, arith |-> TRUE],
+               [name |-> "max_align_t", sz |-> 32, al |-> 16, sg |-> FALSE, arith |-> FALSE] >>
+
 VARIABLES seq, counter, ty
 vars == <<seq, counter, ty>>
-Init == seq = <<>> /\ counter = 0 /\ ty = T("int", 4, TRUE)      \* Type *ty = ty_int
+Init == /\ seq = <<>> /\ counter = 0 /\ ty = T("int", 4, TRUE)      \* Type *ty = ty_int
+        /\ (Emit => \A i \in DOMAIN StdTypes : CSVWrite("%1$s", <<ToJson([std |-> StdTypes[i]])>>, IOEnv.OUT))
 Key(k) == /\ Len(seq) < MaxLen
           /\ seq' = Append(seq, k)
           /\ counter' = Inc(counter, k)
